@@ -1,5 +1,6 @@
 import ShellOp.Util
 import ShellOp.Model.Snapshot
+import ShellOp.Model.FactoryStore
 /-! Line-protocol suite for C02 (snapshots). Core-only. -/
 namespace ShellOp.Drv.C02
 open ShellOp ShellOp.Util ShellOp.Snapshot
@@ -216,6 +217,26 @@ def step (st : St) (toks : List String) : St × String :=
     | some ms =>
       if !ms.added then (st, "bad-op") else
       (updMon st ms.id (fun x => { x with m := startMonitor x.mc st.w x.m, started := true }), "ok")
+    | none => (st, "bad-op")
+  | ["cfgnames", l] =>
+    match natList? l with
+    | some l => (st, showNats ({ cfg := theCfg false false, kind := 0, names := l : MonCfg }).namesEff)
+    | none => (st, "bad-op")
+  | ["cfgnss", sel, l] =>
+    match natList? l with
+    | some l =>
+      let r := ({ cfg := theCfg false false, kind := 0, nss := l, nsSel := boolOf sel : MonCfg }).namespaces
+      (st, if r.isEmpty then "nil" else showNats (r.map (fun x => x.getD 0)))
+    | none => (st, "bad-op")
+  | "oracle" :: "uniq" :: rest =>
+    match (kv? "in" rest).bind natList?, (kv? "got" rest).bind natList? with
+    | some inp, some got => (st, if uniqExact inp got then "true" else "false")
+    | _, _ => (st, "bad-op")
+  | ["stop", id] =>
+    -- StopMonitor: the binding is gone (its snapshot is not observed any more); the other monitors
+    -- of the case are untouched — that is the claim the `oracle snap` lines of the survivors test
+    match id.toNat?.bind (getMon st) with
+    | some ms => ({ st with mons := st.mons.filter (·.id != ms.id) }, "ok")
     | none => (st, "bad-op")
   | ["snap", id] =>
     match id.toNat?.bind (getMon st) with
